@@ -1354,15 +1354,11 @@ namespace jsoncons {
         {
             if (other.storage_kind() == json_storage_kind::const_json_ref)
             {
-                auto alloc = cast<long_string_storage>().get_allocator();
-                destroy();
-                uninitialized_copy_a(other.cast<const_json_ref_storage>().value(), alloc);
+                copy_assignment(other.cast<const_json_ref_storage>().value());
             }
             else if (other.storage_kind() == json_storage_kind::json_ref)
             {
-                auto alloc = cast<long_string_storage>().get_allocator();
-                destroy();
-                uninitialized_copy_a(other.cast<json_ref_storage>().value(), alloc);
+                copy_assignment(other.cast<json_ref_storage>().value());
             }
             else if (is_primitive_storage(other.storage_kind()))
             {
